@@ -59,6 +59,11 @@ fn run<T: Sc>(fam: &FamCase) -> Check {
     }
     // correlation = covariance normalised by sqrt(c_ii c_jj)
     let corr = st.corr();
+    // the deprecated accessor must report the same matrix
+    let corr_old = st.corr_deprecated();
+    if corr_old.shape() != corr.shape() || corr_old.iter().zip(corr.iter()).any(|(a, b)| !same_bits(*a, *b)) {
+        return Err(Fail::new("c13.deprecated_accessor", "correlation_matrix() (deprecated) and calculate_correlation_matrix() differ".to_string()));
+    }
     let covf = Mat::from_na(&cov);
     let corrf = Mat::from_na(&corr);
     if covf.all_finite() && (0..q).all(|i| covf.at(i, i) > 0.0) {
